@@ -215,11 +215,14 @@ Stretched(c) == {[m EXCEPT !.stretch = k] : m \in {x \in Mutants(c) : x.class \i
                                              k \in {150, 400}}
                 \cup {[M("lex_underscore_ident", 1, "_bad", "BAD_IDENTIFIER") EXCEPT !.stretch = 200], [M("argcount", 1, "f1x", "WRONG_ARG_COUNT") EXCEPT !.stretch = 180]}
 LexMutants ==
-  {M("lex_underscore_ident", 1, "_bad", "BAD_IDENTIFIER"), M("lex_unexpected_char", 1, "~", "UNEXPECTED_CHARACTER"),
-   M("lex_nonascii", 1, "0xe9", "NONASCII_CHAR"), M("lex_bad_hex_digit", 1, "G", "ENCODED_STRING_BAD_DIGIT"),
-   M("lex_bad_hex_count", 1, "6", "ENCODED_STRING_BAD_COUNT"), M("argcount", 1, "f1x", "WRONG_ARG_COUNT"),
+  {M("lex_underscore_ident", 1, "_bad", "BAD_IDENTIFIER"), M("lex_nonascii", 1, "0xe9", "NONASCII_CHAR"), M("argcount", 1, "f1x", "WRONG_ARG_COUNT"),
    \* the function named without an argument list at all
    [M("argcount", 1, "f1x", "WRONG_ARG_COUNT") EXCEPT !.pos = "noargs"]}
+  \* the quoted value is the one of the input, whatever it is: each character that is no lexical element, a digit that
+  \* is not hexadecimal at the first / a middle / the last place, digit counts below and above one and two groups of eight
+  \cup {[M("lex_unexpected_char", 1, ch, "UNEXPECTED_CHARACTER") EXCEPT !.pos = ch] : ch \in {"~", "@", "^", "{", "}", "$", "&"}}
+  \cup {[M("lex_bad_hex_digit", 1, d[1], "ENCODED_STRING_BAD_DIGIT") EXCEPT !.pos = d[2]] : d \in {<<"G", "last">>, <<"x", "first">>, <<"Z", "middle">>, <<"g", "second_group">>}}
+  \cup {[M("lex_bad_hex_count", 1, k, "ENCODED_STRING_BAD_COUNT") EXCEPT !.pos = k] : k \in {"6", "9", "14", "23", "1"}}
 
 (* ------------------------------------------------------------------ files the C++ generator writes (C17) *)
 (* one header/implementation pair per entity, per enumeration and per select that is declared with its own items / *)
